@@ -31,3 +31,18 @@ package imagemeta
 //@   props C01 C02
 //@   entry
 //@   requires r != nil
+
+//@ func Decode
+//@   props C01 C02
+//@   entry
+//@   requires r != nil
+
+//@ func DecodeCR3
+//@   props C01 C02 C11
+//@   entry
+//@   requires r != nil
+
+//@ func PreviewCR3
+//@   props C01 C02 C11
+//@   entry
+//@   requires r != nil
